@@ -44,24 +44,24 @@ func Pick[T any](r *Rand, xs []T) T { return xs[r.Intn(len(xs))] }
 // Chord-text sentences
 
 type TextOpts struct {
-	Mode      string // "syllable" | "degree"
-	MaxItems  int
-	Trivia    bool // random spaces / newlines / comments between tokens
-	Unicode   bool // ♯ ♭ and non-ASCII in symbols / metadata
-	Exotic    bool // free-form symbols, odd metadata keys, leading zeros, long numbers
-	Meta      bool
-	Musical   bool // keep values/keys/bpm musically valid so that conv and write succeed
-	KnownSyms []string
-	Keys      []string
+	Mode       string // "syllable" | "degree"
+	MaxItems   int
+	Trivia     bool // random spaces / newlines / comments between tokens
+	Unicode    bool // ♯ ♭ and non-ASCII in symbols / metadata
+	Exotic     bool // free-form symbols, odd metadata keys, leading zeros, long numbers
+	Meta       bool
+	Musical    bool // keep values/keys/bpm musically valid so that conv and write succeed
+	KnownSyms  []string
+	Keys       []string
 	EndComment bool
 }
 
 var (
-	letters      = []string{"C", "D", "E", "F", "G", "A", "B"}
-	plainSymbols = []string{"m", "m7", "maj7", "M7", "dim", "aug", "sus4", "sus2", "m7b5", "dim7", "add9", "mM7", "m9", "maj9", "m6", "augM7", "mM9", "M9"}
-	numSymbols   = []string{"7", "9", "6", "7sus4"}
-	oddSymbols   = []string{"+", "-", "°", "ø7", "Δ", "(b9)", "m]", "x{y}", "m,7", "m#5", "ｍ", "x]y", "!", "mé7", "日本", "%", "m}", "q:r", "'", "\"", "*", "&", "|", "~", "\\", "^", "@"}
-	dynamics     = []string{"pp", "p", "mp", "mf", "f", "ff"}
+	letters       = []string{"C", "D", "E", "F", "G", "A", "B"}
+	plainSymbols  = []string{"m", "m7", "maj7", "M7", "dim", "aug", "sus4", "sus2", "m7b5", "dim7", "add9", "mM7", "m9", "maj9", "m6", "augM7", "mM9", "M9"}
+	numSymbols    = []string{"7", "9", "6", "7sus4"}
+	oddSymbols    = []string{"+", "-", "°", "ø7", "Δ", "(b9)", "m]", "x{y}", "m,7", "m#5", "ｍ", "x]y", "!", "mé7", "日本", "%", "m}", "q:r", "'", "\"", "*", "&", "|", "~", "\\", "^", "@"}
+	dynamics      = []string{"pp", "p", "mp", "mf", "f", "ff"}
 	SupportedKeys = []string{
 		"Cb", "Gb", "Db", "Ab", "Eb", "Bb", "F", "C", "G", "D", "A", "E", "B", "F#", "C#",
 		"Am", "Em", "Bm", "F#m", "C#m", "G#m", "D#m", "Dm", "Gm", "Cm", "Fm", "Bbm", "Ebm",
